@@ -156,7 +156,14 @@ def parse_spec(path):
             if not m:
                 raise Undecided("bad %%proof at %s:%d" % (path, lineno))
             sec = []
-            cur_fn.proofs.append((m.group(1), m.group(2), int(m.group(3) or 0), sec))
+            cur_fn.proofs.append((m.group(1), m.group(2), int(m.group(3) or 0), sec, "proof!"))
+            section = sec
+        elif s.startswith("%ghost") and cur_fn is not None:
+            m = re.match(r'%ghost\s+(before|after|start)(?:\s+"(.*)")?(?:\s+#(\d+))?\s*$', s)
+            if not m:
+                raise Undecided("bad %%ghost at %s:%d" % (path, lineno))
+            sec = []
+            cur_fn.proofs.append((m.group(1), m.group(2), int(m.group(3) or 0), sec, "proof_decl!"))
             section = sec
         elif s.startswith("%spec") and cur_fn is not None:
             section = cur_fn.spec
@@ -487,9 +494,9 @@ def fn_inserts(u, m, d, it, info, used_fns, probe_fn):
         for lineno, t in sec:
             if t.strip():
                 info["clauses"].append({"file": fs.specfile, "fn": full, "spec_line": lineno, "text": t.strip(), "props": clause_props(t, fs.props), "where": "loop " + anchor})
-    for where, anchor, occ, sec in fs.proofs:
+    for where, anchor, occ, sec, mac in fs.proofs:
         first = sec[0][0] if sec else fs.line
-        ptxt = "\nproof! {\n" + spec_lines_to_text(sec) + "\n}\n"
+        ptxt = "\n" + mac + " {\n" + spec_lines_to_text(sec) + "\n}\n"
         if where == "start":
             pos = it["body_start"] + 1
         else:
